@@ -216,6 +216,12 @@ fn hexval(s: &str) -> u128 {
     u128::from_str_radix(s.trim_start_matches("0x"), 16).unwrap_or(0)
 }
 
+/// names for named areas, among them the ones the library itself hands out ("Stack", "arg0", "env0") or might
+/// treat specially: a name is a label, never an address - nothing about an area may depend on it
+pub fn area_name(a: u64, b: u64) -> String {
+    ["named", "Stack", "Heap", "arg0", "env0", ".text", "TLS", "", "Stack", "named"][(((a >> 4) ^ (a >> 12) ^ b) % 10) as usize].to_string()
+}
+
 pub fn fill(seed: u64, len: u64) -> Vec<u8> {
     let mut r = crate::rng::Rng::new(seed);
     if seed % 5 == 0 {
@@ -1105,9 +1111,9 @@ impl<'a> Ex<'a> {
         let before_n = self.m.areas.len();
         let r: R<()> = match (zero, named) {
             (true, false) => call(|| self.ax.mem_init_zero(start, len)),
-            (true, true) => call(|| self.ax.mem_init_zero_named(start, len, "named".to_string())),
+            (true, true) => call(|| self.ax.mem_init_zero_named(start, len, area_name(start, len))),
             (false, false) => call(|| self.ax.mem_init_area(start, data.clone())),
-            (false, true) => call(|| self.ax.mem_init_area_named(start, data.clone(), Some("named".to_string()))),
+            (false, true) => call(|| self.ax.mem_init_area_named(start, data.clone(), Some(area_name(start, len)))),
         };
         self.ctx.event(&format!("{name}:{rel}:{}", r.class()), &format!("{start:x}+{len}"));
         let exp: Option<bool> = match rel {
@@ -1178,7 +1184,7 @@ impl<'a> Ex<'a> {
         let r: R<u64> = if zero {
             call(|| self.ax.mem_init_zero_anywhere(len))
         } else {
-            call(|| self.ax.mem_init_anywhere(data.clone(), if named { Some("named".to_string()) } else { None }))
+            call(|| self.ax.mem_init_anywhere(data.clone(), if named { Some(area_name(len, data.first().copied().unwrap_or(0) as u64)) } else { None }))
         };
         let fuel_out = ax_x86::verif::fuel_was_exhausted();
         ax_x86::verif::set_fuel(Some(E1_FUEL));
